@@ -402,8 +402,9 @@ impl Catalog {
             stats.total_bytes_freed += bytes_freed;
         }
 
-        // Relations created by transactions that aborted: their catalog rows are about to be
-        // removed and nothing else knows their pages. Release them first, or they are lost for good.
+        // Relations created by transactions that aborted, and relations that were dropped: their
+        // catalog rows are about to be removed and nothing else knows their pages. Release them
+        // first, or they are lost for good.
         let abandoned_roots: Vec<PageId> = {
             let mut meta_table = builder.build_tree(self.meta_table);
             let mut roots = Vec::new();
@@ -413,7 +414,12 @@ impl Catalog {
                     if let Ok(pos) = iter_result {
                         meta_table.with_cell_at(pos, |bytes| {
                             let tuple = Tuple::from_slice_unchecked(bytes)?;
-                            if snapshot.is_transaction_aborted(tuple.xmin()) {
+                            // ... and relations that were dropped (VACUUM has aborted every open
+                            // transaction, so a delete mark that is not an aborted one is committed).
+                            let dropped = tuple
+                                .xmax()
+                                .is_some_and(|xmax| !snapshot.is_transaction_aborted(xmax));
+                            if snapshot.is_transaction_aborted(tuple.xmin()) || dropped {
                                 let reader = TupleReader::from_schema(&schema);
                                 let layout = reader.parse_last_version(bytes)?;
                                 let row = TupleRef::new(bytes, layout).to_row_with(&schema)?;
@@ -605,12 +611,9 @@ impl Catalog {
             }
         };
 
-        // First, deallocate the relation.
-        // Deallocate the relation.
-      {
-            let mut tree = builder.build_tree_mut(rel.root());
-            tree.dealloc()?;
-        }
+        // The relation's pages are not released here: the transaction may still roll back, and
+        // transactions with an older snapshot keep reading the relation. VACUUM releases them
+        // together with the catalog row once the removal is committed (see [Catalog::vacuum]).
 
         // Obtain the relation metadata
         let relation_id = rel.object_id();
